@@ -123,6 +123,18 @@ def run_case(case):
         ref, sc = R.ev(da.deriv_density(o), dm)
         out = cm.call(D.evaluate_deriv_density, np.array(o, dtype=int), dm.copy(), B(), pts.copy(), deriv_type=dt, **kw)
         chk(out, ref, sc, "evaluate_deriv_density(orders=%s, %s)" % (o, dt), "deriv_density", orders=list(o))
+    # ---- the building block itself: derivative of the reduced density matrix D(p, q) on the diagonal, and the density
+    # from already evaluated orbitals
+    rngq = bases.rng_for("C06rdm", case["cid"] if "cid" in case else 0)
+    for _ in range(2):
+        o1 = tuple(int(x) for x in rngq.integers(0, 3, size=3))
+        o2 = tuple(int(x) for x in rngq.integers(0, 3, size=3))
+        ref, sc = R.ev(da.term(o1, o2), dm)
+        out = cm.call(D.evaluate_deriv_reduced_density_matrix, np.array(o1, dtype=int), np.array(o2, dtype=int), dm.copy(), B(), pts.copy(), deriv_type=dt, **kw)
+        chk(out, ref, sc, "evaluate_deriv_reduced_density_matrix(%s, %s, %s)" % (o1, o2, dt), "rdm_deriv", orders=[list(o1), list(o2)])
+    orb = R.val((0, 0, 0))
+    out = cm.call(D.evaluate_density_using_evaluated_orbs, dm.copy(), np.array(orb, dtype=float))
+    chk(out, rho, rho_sc, "evaluate_density_using_evaluated_orbs", "density_from_orbs")
     # ---- gradient, laplacian, hessian
     gref = [R.ev(da.deriv_density(da.e(k)), dm) for k in range(3)]
     g = cm.call(D.evaluate_density_gradient, dm.copy(), B(), pts.copy(), deriv_type=dt, **kw)
